@@ -21,6 +21,26 @@ class PlannedRecordError(Exception):
         self.reason = reason
 
 
+class SlowHandle:
+    """An item that is slow to unpickle (a large document, a memory-mapped array, ...): every unpickling sleeps `delay` s.
+    The fill process unpickles the whole item list before it delivers anything, so the workers sit idle meanwhile."""
+
+    def __init__(self, payload, delay):
+        self.payload = payload
+        self.delay = delay
+
+    def __reduce__(self):
+        return (_rebuild_slow, (self.payload, self.delay))
+
+    def __repr__(self):
+        return f"SlowHandle({self.payload.get('i')})"
+
+
+def _rebuild_slow(payload, delay):
+    time.sleep(delay)
+    return SlowHandle(payload, delay)
+
+
 def _log(event_file, text):
     if not event_file:
         return
@@ -35,6 +55,8 @@ def process_item(item, *sketches, event_file=None, die=None, table=None):
     # items may be opaque handles (ints incl. 0, bytes incl. b"" and non-UTF-8, "", ()) whose payload is in `table`
     if table is not None:
         item = table[item]
+    if isinstance(item, SlowHandle):
+        item = item.payload
     i = item["i"]
     _log(event_file, f"{os.getpid()} {i} start")
     if item.get("sleep_ms"):
